@@ -391,7 +391,11 @@ class ExpContext(EncodableContext):
         For exponent numbers, the region between 0 and MIN_VAL is similar
         to the region between MAX_VAL and infinity.
         """
-        _, direction = self.rm.to_direction(s)
+        nearest, direction = self.rm.to_direction(s)
+        if nearest:
+            # as with an overflow, a nearest mode takes the out-of-format end
+            # whatever its tie rule: the direction only breaks ties
+            return True
         match direction:
             case RoundingDirection.RTZ:
                 return True
